@@ -48,18 +48,27 @@ pub fn tokenize(s: &str) -> Result<Vec<J>, String> {
                 out.push(json!({"t":"int","v":n}));
             }
         } else if c == '"' {
-            let st = i + 1;
+            // the grammar's String token: any character but quote and backslash, or one of the escapes
+            // \\ \" \' \n \r \t (the \x and \u forms are not produced for the literals used here)
             i += 1;
-            while i < cs.len() && cs[i] != '"' {
-                if cs[i] == '\\' {
-                    return Err("escape in string literal".into());
+            let mut w = String::new();
+            loop {
+                if i >= cs.len() {
+                    return Err("unterminated string".into());
                 }
-                i += 1;
+                match cs[i] {
+                    '"' => break,
+                    '\\' => {
+                        let e = *cs.get(i + 1).ok_or("dangling backslash")?;
+                        w.push(match e { '\\' => '\\', '"' => '"', '\'' => '\'', 'n' => '\n', 'r' => '\r', 't' => '\t', _ => return Err(format!("escape \\{} in string literal", e)) });
+                        i += 2;
+                    }
+                    c => {
+                        w.push(c);
+                        i += 1;
+                    }
+                }
             }
-            if i >= cs.len() {
-                return Err("unterminated string".into());
-            }
-            let w: String = cs[st..i].iter().collect();
             out.push(json!({"t":"str","v":cps(&w)}));
             i += 1;
         } else {
@@ -122,7 +131,12 @@ pub fn main(args: &Args) -> i32 {
                 let _ = writeln!(out, "{}", J::Object(m));
                 n += 1;
             }
-            Err(_) => tok_errors += 1,
+            Err(why) => {
+                // a text that is not made of the grammar's tokens denotes nothing: a line TLC rejects
+                let _ = writeln!(out, "{}", json!({"kind":"lex","why":why,"text":text.chars().filter(|c| c.is_ascii()).collect::<String>()}));
+                n += 1;
+                tok_errors += 1;
+            }
         }
     };
     let a = col("a");
@@ -134,6 +148,8 @@ pub fn main(args: &Args) -> i32 {
         vec![a.clone(), lit(&Value::Str("x".into())), lit(&Value::Null)],
         vec![lit(&Value::Int(i32::MIN)), a.clone(), lit(&Value::Int(-1))],
         vec![lit(&Value::Null), lit(&Value::Int(i32::MAX)), b.clone()],
+        // characters the grammar writes with an escape: quote, backslash, apostrophe, line feed, tab
+        vec![lit(&Value::Str("say \"hi\"".into())), a.clone(), lit(&Value::Str("a\\b'c\nd\te\"".into()))],
     ];
     let mut exprs: Vec<J> = Vec::new();
     // every parent/child operator pair, on either side
@@ -221,7 +237,8 @@ pub fn main(args: &Args) -> i32 {
         emit("select", "q", q, text);
     }
     let vals = vec![Value::Null, Value::Int(0), Value::Int(-7), Value::Int(2147483647), Value::Str("quux".into()), Value::Str("".into()),
-                    Value::Int(i32::MIN), Value::Int(-1), Value::Str("NULL".into()), Value::Str("a b".into()), Value::Int(65536)];
+                    Value::Int(i32::MIN), Value::Int(-1), Value::Str("NULL".into()), Value::Str("a b".into()), Value::Int(65536),
+                    Value::Str("q\"uo\\te".into())];
     let mut others = 0;
     for nrows in 0..5usize {
         for ncols in 1..5usize {
@@ -290,5 +307,5 @@ pub fn main(args: &Args) -> i32 {
     drop(emit);
     let _ = from_cps(&json!([]));
     println!("PRINTING {}", json!({"lines": n, "exprs": n_expr, "selects": selects.len(), "other_queries": others, "tokenizer_errors": tok_errors}));
-    if tok_errors > 0 { 1 } else { 0 }
+    0
 }
